@@ -198,7 +198,7 @@ def finding_key(req, obs, detail):
 
 SPEC = {
     "id": "C04",
-    "gens": ["SlotTables", "FixpointTables", "RankTable", "TypingTables", "HlslGenTables", "HlslIntrinsicTables",
+    "gens": ["SlotTables", "FixpointTables", "PathLookup", "RankTable", "TypingTables", "HlslGenTables", "HlslIntrinsicTables",
              "MetaTables", "CompileTables"] + LEG_GENS,
     "lean_modules": ["RsslVerif.Thm.C04"] + LEG_MODULES,
     "theorems": [T + n for n in [
@@ -208,7 +208,12 @@ SPEC = {
         "reelab_no_new_casts", "reelab_stmt_no_new_casts", "export_is_source", "unelab_is_export", "renamed_exists",
         "reelab_idempotent", "out_arguments_plain", "out_arguments_plain_stmt", "out_argument_conversion_rejected",
         "bridge_square", "skeleton_and_constants", "reread_payloads_as_modelled", "leaf_value_preserved", "parsesBack_of_c09", "fixpoint_expr", "fixpoint_expr_text", "fixpoint_stmt",
-        "namesAgreeEx", "idxInjEx"]] + LEG_THEOREMS,
+        "namesAgreeEx", "idxInjEx",
+        # name lookup of the emitted paths (Model.FixpointNames)
+        "path_lookup_as_modelled", "emitPath_relative", "noCloserMatch_of_noInnerHomonym",
+        "emitted_path_resolves_of_no_closer_match", "emitted_path_resolves_to_same_entity",
+        "pathsResolveBack_of_no_closer_match", "machine_tables_wf", "mutant_discipline_loses_emitted_path",
+        "emitted_path_captured_witness", "namesAgree_of_pathsResolveBack", "fixpoint_expr_paths"]] + LEG_THEOREMS,
     "harness": "c04",
     "custom": custom,
     "nontrivial": nontrivial,
